@@ -301,6 +301,7 @@ type Engine struct {
 	// loops without an invariant in the contract file (typically introduced or moved by a refactoring):
 	autoLoop    map[string][]int  // map-range loop -> indices of the candidate invariants still in use
 	autoCut     map[string]bool   // other loops that ran past the unwinding bound: cut with invariant `true`
+	autoOff     map[string]bool   // non-nil candidates (genericLoopHeader) found not inductive
 	autoCutWant map[string]bool
 	dropAtBound bool              // bounded function: paths that exceed the unwinding bound are dropped (stated bound)
 	unrollAll   bool              // bounded variant: loops are unrolled instead of cut at their invariants
